@@ -45,7 +45,7 @@ def make_items(seed, tier):
             "dots": over.get("dots") or r.weighted([(6, "none"), (1, "regex"), (1, "dfa"), (1, "both")]),
             "fault_mode": over.get("fault_mode", "enumerate"),
             # what isatty() answers for stdout/stderr is configuration too (colour, paging, width logic must not matter)
-            "tty": over.get("tty") or r.weighted([(5, ""), (2, "2"), (1, "12")]),
+            "tty": over.get("tty") if over.get("tty") is not None else r.weighted([(5, ""), (2, "2"), (1, "12")]),
         }
         it["id"] = len(items)
         items.append(it)
@@ -115,7 +115,8 @@ def make_items(seed, tier):
         add("soup", gram.token_soup(r), r, fault_mode="sample")
     for name, data in gram.stress_corpus():
         r = rng.sub("stress/" + name)
-        add("stress:" + name, proc.enc(data), r, fault_mode="none", dest_mode="existing", input_mode="file", dots="none")
+        add("stress:" + name, proc.enc(data), r, fault_mode="none", dest_mode="existing", input_mode="file", dots="none",
+            tty="2" if name.startswith("tty_") else None)
     return items
 
 
@@ -747,6 +748,24 @@ def real_kernel_crosscheck():
                 runs += 1
                 if r.returncode != 1 or not r.stderr:
                     out.append({"class": "real-kernel:%s:exit%s" % (label, r.returncode), "key": "real-kernel:" + label, "shell": sh, "stderr": proc.enc(r.stderr)[-400:]})
+            # special files as destination: a complete script must still mean exit 0 (no fsync/seek/truncate that only regular files support)
+            ref = subprocess.run([build.COMPLGEN, "--" + sh, "-", "w.usage"], cwd=d, capture_output=True, env={"LC_ALL": "C"}, timeout=30)
+            r = subprocess.run([build.COMPLGEN, "--" + sh, "/dev/null", "w.usage"], cwd=d, capture_output=True, env={"LC_ALL": "C"}, timeout=30)
+            runs += 2
+            if r.returncode != 0 or ref.returncode != 0:
+                out.append({"class": "real-kernel:dest-dev-null:exit%s" % r.returncode, "key": "real-kernel:dest-dev-null", "shell": sh, "stderr": proc.enc(r.stderr)[-400:]})
+            r = subprocess.run([build.COMPLGEN, "--" + sh, "/dev/stdout", "w.usage"], cwd=d, capture_output=True, env={"LC_ALL": "C"}, timeout=30)
+            runs += 1
+            if r.returncode != 0 or r.stdout != ref.stdout:
+                out.append({"class": "real-kernel:dest-dev-stdout-pipe:exit%s" % r.returncode, "key": "real-kernel:dest-dev-stdout-pipe", "shell": sh, "stderr": proc.enc(r.stderr)[-400:]})
+            fifo = os.path.join(d, "fifo.%s" % sh)
+            os.mkfifo(fifo)
+            reader = subprocess.Popen(["cat", fifo], stdout=subprocess.PIPE)
+            r = subprocess.run([build.COMPLGEN, "--" + sh, fifo, "w.usage"], cwd=d, capture_output=True, env={"LC_ALL": "C"}, timeout=30)
+            got = reader.communicate(timeout=30)[0]
+            runs += 1
+            if r.returncode != 0 or got != ref.stdout:
+                out.append({"class": "real-kernel:dest-fifo:exit%s" % r.returncode, "key": "real-kernel:dest-fifo", "shell": sh, "stderr": proc.enc(r.stderr)[-400:]})
             # 2. stdout on a full device
             with open("/dev/full", "wb") as full:
                 r = subprocess.run([build.COMPLGEN, "--" + sh, "-", "w.usage"], cwd=d, stdout=full, stderr=subprocess.PIPE, env={"LC_ALL": "C"}, timeout=30)
